@@ -5,20 +5,21 @@
 EXTENDS FParse, Json, IOUtils, SequencesExt
 Cases == JsonDeserialize(IOEnv.CASES)
 IntEnvSeq == SetToSeq(IntEnvs)
-EnvStr(env) == "a=" \o ToString(env["a"].v) \o ",b=" \o ToString(env["b"].v) \o ",c=" \o ToString(env["c"].v)
+RealEnvSeq == SetToSeq(RealEnvs)   \* only used to classify a rejected answer (exact-division reading)
+EnvStr(env) == "a=" \o ToString(Image(env["a"])) \o ",b=" \o ToString(Image(env["b"])) \o ",c=" \o ToString(Image(env["c"]))
 
-RECURSIVE Scan(_, _, _, _, _, _)
-Scan(a, op, b, want, i, n) ==
-  IF i > Len(IntEnvSeq) THEN <<TRUE, "ok", n>>
-  ELSE LET env == IntEnvSeq[i]
+RECURSIVE Scan(_, _, _, _, _, _, _)
+Scan(envs, a, op, b, want, i, n) ==
+  IF i > Len(envs) THEN <<TRUE, "ok", n>>
+  ELSE LET env == envs[i]
            va == Eval(a, env)
            vb == Eval(b, env)
-       IN IF IsErr(va) \/ IsErr(vb) THEN Scan(a, op, b, want, i + 1, n)
-          ELSE IF CmpV(op, va, vb).v = want THEN Scan(a, op, b, want, i + 1, n + 1)
+       IN IF IsErr(va) \/ IsErr(vb) THEN Scan(envs, a, op, b, want, i + 1, n)
+          ELSE IF CmpV(op, va, vb).v = want THEN Scan(envs, a, op, b, want, i + 1, n + 1)
           ELSE <<FALSE, "definite-answer-wrong:" \o EnvStr(env) \o ":lhs=" \o ToString(Image(va)) \o ":rhs=" \o ToString(Image(vb)), n>>
 
 Judge(c) == IF c.res = "raised" THEN <<TRUE, "raised", 0>>
-            ELSE Scan(c.a, c.op, c.b, c.res = "true", 1, 0)
+            ELSE Scan(IF c.typing = "int" THEN IntEnvSeq ELSE RealEnvSeq, c.a, c.op, c.b, c.res = "true", 1, 0)
 VARIABLE tid
 Init == tid = 1
 Next == /\ tid <= Len(Cases)
